@@ -39,6 +39,7 @@ type caOrder struct {
 	authz    string // pending, valid, invalid, deactivated
 	token    string
 	certDER  []byte
+	fault    string
 	finalize int
 }
 
@@ -57,6 +58,7 @@ type fakeCA struct {
 	newOrders map[string]int // domain -> newOrder requests
 	issued    map[string]int // domain|keytype -> certificates issued
 	refuse    map[string]string
+	fault     map[string]string // domain -> defect of the chain delivered after an otherwise successful flow
 	gate      func(domain string)
 	trouble   []string // requests the CA could not make sense of (harness trouble, not a property violation)
 	requests  int
@@ -93,7 +95,7 @@ func newFakeCA(now time.Time) (*fakeCA, error) {
 	return &fakeCA{
 		now: now, backdate: time.Hour, lifetime: 90 * 24 * time.Hour,
 		rootKey: caRootKey, rootCert: root,
-		newOrders: map[string]int{}, issued: map[string]int{}, refuse: map[string]string{},
+		newOrders: map[string]int{}, issued: map[string]int{}, refuse: map[string]string{}, fault: map[string]string{},
 	}, nil
 }
 
@@ -366,13 +368,41 @@ func (ca *fakeCA) RoundTrip(req *http.Request) (*http.Response, error) {
 		if refuse == "finalize" {
 			return ca.problem(req, 403, "unauthorized", "issuance refused for "+domain), nil
 		}
-		leaf, err := ca.leaf([]string{domain}, csr.PublicKey, ca.now.Add(-ca.backdate), ca.now.Add(ca.lifetime))
+		// what is issued; a scripted fault makes the CA (or a middlebox) deliver a chain
+		// that the client must reject although every protocol step succeeded
+		ca.mu.Lock()
+		fault := ca.fault[domain]
+		ca.mu.Unlock()
+		names, pub := []string{domain}, csr.PublicKey
+		notBefore, notAfter := ca.now.Add(-ca.backdate), ca.now.Add(ca.lifetime)
+		_, csrRSA := csr.PublicKey.(*rsa.PublicKey)
+		switch fault {
+		case "other-name":
+			names = []string{"foreign.example.net"}
+		case "other-key":
+			if csrRSA {
+				pub = c51RSAKeys[0].Public()
+			} else {
+				pub = c51ECKeys[0].Public()
+			}
+		case "keytype":
+			if csrRSA {
+				pub = c51ECKeys[1].Public()
+			} else {
+				pub = c51RSAKeys[1].Public()
+			}
+		case "notyet":
+			notBefore = ca.now.Add(time.Hour)
+		case "expired":
+			notBefore, notAfter = ca.now.Add(-48*time.Hour), ca.now.Add(-time.Second).Truncate(time.Second)
+		}
+		leaf, err := ca.leaf(names, pub, notBefore, notAfter)
 		if err != nil {
 			return ca.problem(req, 400, "badCSR", "cannot issue: "+err.Error()), nil
 		}
 		ca.mu.Lock()
 		ca.issued[domain+"|"+keyTypeOf(csr.PublicKey)]++
-		o.certDER, o.status = leaf, "valid"
+		o.certDER, o.status, o.fault = leaf, "valid", fault
 		b := ca.orderJSON(i)
 		ca.mu.Unlock()
 		return ca.reply(req, 200, map[string]string{"Location": caBase + "/order/" + strconv.Itoa(i)}, b), nil
@@ -383,13 +413,19 @@ func (ca *fakeCA) RoundTrip(req *http.Request) (*http.Response, error) {
 			return ca.confused(req, "no such certificate"), nil
 		}
 		ca.mu.Lock()
-		der := ca.orders[i].certDER
+		der, fault := ca.orders[i].certDER, ca.orders[i].fault
 		ca.mu.Unlock()
 		if der == nil {
 			return ca.problem(req, 404, "malformed", "not issued"), nil
 		}
 		var buf bytes.Buffer
+		if fault == "empty-chain" {
+			return ca.reply(req, 200, map[string]string{"Content-Type": "application/pem-certificate-chain"}, nil), nil
+		}
 		pem.Encode(&buf, &pem.Block{Type: "CERTIFICATE", Bytes: der})
+		if fault == "garbage-intermediate" {
+			pem.Encode(&buf, &pem.Block{Type: "CERTIFICATE", Bytes: []byte("this is not DER")})
+		}
 		pem.Encode(&buf, &pem.Block{Type: "CERTIFICATE", Bytes: ca.rootCert.Raw})
 		return ca.reply(req, 200, map[string]string{"Content-Type": "application/pem-certificate-chain"}, buf.Bytes()), nil
 	}
